@@ -45,6 +45,9 @@ VARIANTS = {
     "gemm32": ("snax_gemmx", ["i8", "i8", "i32", "i32"], 3, [8, 8, 8], [[0, 2], [2, 1], [0, 1], [0, 1]]),
     "gemm8": ("snax_gemmx", ["i8", "i8", "i32", "i8"], 3, [8, 8, 8], [[0, 2], [2, 1], [0, 1], [0, 1]]),
     "simd": ("snax_gemmx", ["i32", "i8"], 1, [8, 8], [[0, 1], [0, 1]]),
+    # output stream neither i8 nor i32: get_streamers refuses (NotImplementedError)
+    "mm16": ("snax_gemmx", ["i8", "i8", "i16"], 2, [8, 8, 8], [[0, 2], [2, 1], [0, 1]]),
+    "gemm16": ("snax_gemmx", ["i8", "i8", "i32", "i16"], 3, [8, 8, 8], [[0, 2], [2, 1], [0, 1], [0, 1]]),
 }
 EL_BYTES = {"i8": 1, "i16": 2, "i32": 4, "i64": 8}
 RESCALE = ('{input_zp = 0 : i32, output_zp = 0 : i32, multiplier = array<i32: 1>, shift = array<i32: 0>, '
@@ -88,19 +91,20 @@ def body(variant, els):
              "      dart.yield %k : i32",
              "    }) : (!dart.stream<i8>, !dart.stream<i8>, i32, i32) -> !dart.stream<i32>"]
     last = "%mm"
-    if variant in ("gemm32", "gemm8"):
+    if variant in ("gemm32", "gemm8", "gemm16"):
         lines += ['    %ad = "dart.generic"(%mm, %s2) <{library_call = "snax_gemmx"}> ({',
                   "    ^bb2(%x2 : i32, %y2 : i32, %z2 : i32):",
                   "      %k2 = kernel.add %x2, %y2 : i32, i32 -> i32",
                   "      dart.yield %k2 : i32",
                   "    }) : (!dart.stream<i32>, !dart.stream<i32>) -> !dart.stream<i32>"]
         last = "%ad"
-    if variant in ("mm8", "gemm8"):
+    if variant in ("mm8", "gemm8", "mm16", "gemm16"):
+        eo = els[n - 1]
         lines += [f'    %rs = "dart.generic"({last}) <{{library_call = "snax_gemmx"}}> ({{',
-                  "    ^bb3(%x3 : i32, %z3 : i8):",
-                  f"      %k3 = kernel.rescale %x3 {RESCALE} : (i32) -> i8",
-                  "      dart.yield %k3 : i8",
-                  "    }) : (!dart.stream<i32>) -> !dart.stream<i8>"]
+                  f"    ^bb3(%x3 : i32, %z3 : {eo}):",
+                  f"      %k3 = kernel.rescale %x3 {RESCALE} : (i32) -> {eo}",
+                  f"      dart.yield %k3 : {eo}",
+                  f"    }}) : (!dart.stream<i32>) -> !dart.stream<{eo}>"]
         last = "%rs"
     lines.append(f"    dart.yield {last} : {st[n - 1]}")
     return "\n".join(lines)
@@ -127,12 +131,13 @@ def layout_text(lay):
     if lay is None:
         return ""
     if lay[0] == "tsl":
-        dims = ["[" + ", ".join(str(b) for _, b in d) + "] -> (" + ", ".join(str(s) for s, _ in d) + ")" for d in lay[1]]
+        q = lambda v: "?" if v is None else str(v)      # noqa: E731   (None = dynamic entry)
+        dims = ["[" + ", ".join(q(b) for _, b in d) + "] -> (" + ", ".join(q(s) for s, _ in d) + ")" for d in lay[1]]
         off = f", offset: {lay[2]}" if len(lay) > 2 and lay[2] else ""
         return ", #tsl.tsl<" + ", ".join(dims) + off + ">"
     if lay[0] == "strided":
-        off = f", offset: {lay[2]}" if len(lay) > 2 and lay[2] else ""
-        return ", strided<[" + ", ".join(str(s) for s in lay[1]) + "]" + off + ">"
+        off = ", offset: ?" if len(lay) > 2 and lay[2] is None else f", offset: {lay[2]}" if len(lay) > 2 and lay[2] else ""
+        return ", strided<[" + ", ".join("?" if s is None else str(s) for s in lay[1]) + "]" + off + ">"
     raise ValueError(lay)
 
 
@@ -293,19 +298,21 @@ def layout_data(ty):
         for n in reversed(shape):
             out.insert(0, [[s, n]])
             s *= n
-        return out, 0
+        return out, 0, "none"
     if isinstance(lay, StridedLayoutAttr):
-        strides = [x.data for x in lay.strides.data]
-        off = lay.offset.data if hasattr(lay.offset, "data") else None
+        strides = [getattr(x, "data", None) for x in lay.strides.data]
+        off = getattr(lay.offset, "data", None)
         if off is None or any(s is None for s in strides):
-            raise ValueError("dynamic strided layout")
-        return [[[s, n]] for s, n in zip(strides, shape)], off
+            return [[[s, n]] for s, n in zip(strides, shape)], off, "dyn_strided"
+        return [[[s, n]] for s, n in zip(strides, shape)], off, "strided"
     if isinstance(lay, TiledStridedLayoutAttr):
         d = lay.data
         out = [[[s.step, s.bound] for s in t.strides] for t in d.tstrides]
-        if d.offset is None or any(s is None or b is None for t in out for s, b in t):
-            raise ValueError("dynamic tsl layout")
-        return out, d.offset
+        if any(s is None or b is None for t in out for s, b in t):
+            return out, d.offset, "dyn_tsl"
+        if d.offset is None:
+            raise ValueError("tsl layout with a dynamic offset")
+        return out, d.offset, "tsl"
     raise ValueError(f"layout {lay}")
 
 
@@ -328,6 +335,27 @@ def layout_aexpr(lay, off, elb):
         for t_ in terms:
             e = ["+", e, t_]
     return e
+
+
+def linear_flags(sch, bounds, strides):
+    """per operand: is the real composed map (xDSL get_affine_map_in_bytes ∘ pattern) equal to sum x_i * stride_i at
+    every point of the iteration box?  None if the box is too large to enumerate."""
+    n = 1
+    for b in bounds:
+        n *= b
+    if n > 20000:
+        return [None] * len(strides)
+    out = []
+    for opnd, pat, st in zip(sch.operands, sch.patterns.data, strides):
+        lm = opnd.type.get_affine_map_in_bytes()
+        pm = pat.data
+        ok = True
+        for x in itertools.product(*[range(b) for b in bounds]):
+            if lm.eval(pm.eval(list(x), []), [])[0] != sum(xi * si for xi, si in zip(x, st)):
+                ok = False
+                break
+        out.append(ok)
+    return out
 
 
 def el_bytes_of(ty):
@@ -535,7 +563,7 @@ def gen_layout(rng, shape, tile_hint, mode, prio=None, safe=False):
 def gen_sched(rng, big=False, variant=None, safe=False):
     """safe: layouts that the streamers accept most of the time (used for the ops of multi-op modules)"""
     variant = variant or rng.choice(["alu", "alu", "alu", "xdma_add", "xdma_down", "xdma_up", "mm32", "mm32", "mm8", "gemm32",
-                                     "gemm8", "simd"])
+                                     "gemm8", "simd"] * 4 + ["mm16", "gemm16"])
     max_tiles = 4 if not safe else 1 if variant == "alu" else 2
     ndims, bounds, axes, size = gen_axes(rng, variant, max_tiles)
     tb = VARIANTS[variant][3]
@@ -546,7 +574,8 @@ def gen_sched(rng, big=False, variant=None, safe=False):
         case["el"] = "i64" if safe else rng.choice(["i64", "i64", "i64", "i32", "i16", "i8"])
     els = op_els(case)
     r = rng.random()
-    flavour = "plain" if r < 0.86 or safe else "offset" if r < 0.91 else "unaligned" if r < 0.95 else "bias"
+    flavour = "plain" if r < 0.86 or safe else "offset" if r < 0.91 else "unaligned" if r < 0.95 else \
+        "bias" if r < 0.98 else "dynamic"
     bad_op = rng.randrange(len(els))
     for i, el in enumerate(els):
         # element-wise operands: the purely temporal axes are the outer operand dims, the template axis is the last one
@@ -573,11 +602,58 @@ def gen_sched(rng, big=False, variant=None, safe=False):
                 shape[j] += b[j]
                 mode = "none"
             else:
-                mode = flavour
+                mode = "none" if flavour == "dynamic" else flavour
         hint = [tb[a] if a < naxes else rng.choice([2, 4]) for a in op_axes]
         prio = [a if a < naxes else -1 for a in op_axes]
-        case["operands"].append({"shape": shape, "A": A, "b": b, "layout": gen_layout(rng, shape, hint, mode, prio, safe)})
+        tsl_off = flavour == "offset" and i == bad_op and rng.random() < 0.4
+        lay = gen_layout(rng, shape, hint, "tsl" if tsl_off else mode, prio, safe)
+        if tsl_off:
+            lay[2] = rng.choice([1, 2, 4, 8])
+        if flavour == "dynamic" and i == bad_op:
+            # dynamic strides: layout resolution has to refuse (symbols in the composed map / dynamic TSL)
+            r2 = rng.random()
+            if r2 < 0.3:
+                lay = ["strided", [None] + row_major(shape)[1:], 0]
+            elif r2 < 0.6:
+                lay = ["strided", row_major(shape), None]
+            else:
+                lay = gen_layout(rng, shape, hint, "tsl", prio, True)
+                lay[1][0][0][0] = None
+        case["operands"].append({"shape": shape, "A": A, "b": b, "layout": lay})
     return case
+
+
+REGION_ACCS = {"snax_alu": ("i64", 3), "snax_gemmx": ("i8", 5), "snax_xdma": ("i32", 2)}
+
+
+def gen_region(rng):
+    """a hand-written snax_stream.streaming_region with arbitrary pattern lists: only the verifier is exercised (pattern count,
+    temporal / spatial stride counts, equal ub/ts lengths)"""
+    acc = rng.choice(list(REGION_ACCS))
+    n = REGION_ACCS[acc][1]
+    k = n if rng.random() < 0.7 else rng.choice([max(1, n - 1), n + 1])
+    pats = []
+    for _ in range(k):
+        nt = rng.choice([0, 1, 1, 1, 1, 1, 2, 3, 3, 4, 6])
+        ns = rng.choice([0, 1, 1, 1, 1, 1, 1, 2, 3])
+        ub = [rng.choice([0, 1, 2, 4]) for _ in range(nt)]
+        ts = [rng.choice([0, 8, 64]) for _ in range(nt if rng.random() < 0.95 else nt + 1)]
+        pats.append({"ub": ub, "ts": ts, "ss": [rng.choice([0, 8, 64]) for _ in range(ns)]})
+    return {"kind": "region", "variant": "alu", "acc": acc, "pats": pats}
+
+
+def mlir_region(case):
+    el = REGION_ACCS[case["acc"]][0]
+    k = len(case["pats"])
+    ps = ", ".join("#snax_stream.stride_pattern<ub = [%s], ts = [%s], ss = [%s]>" % tuple(
+        ", ".join(str(x) for x in p[key]) for key in ("ub", "ts", "ss")) for p in case["pats"])
+    args = ", ".join(f"%p{i} : index" for i in range(k))
+    return f'''func.func @f({args}) {{
+  "snax_stream.streaming_region"({", ".join(f"%p{i}" for i in range(k))}) <{{stride_patterns = [{ps}], accelerator = "{case["acc"]}", operandSegmentSizes = array<i32: {k - 1}, 1>}}> ({{
+  ^bb0({", ".join(f"%s{i} : !dart.stream<{el}>" for i in range(k))}):
+  }}) : ({", ".join(["index"] * k)}) -> ()
+  func.return
+}}'''
 
 
 GEMMX_VARIANTS = ["mm32", "mm8", "gemm32", "gemm8", "simd"]
@@ -713,14 +789,16 @@ class C02(Prop):
 
     def cases(self, rng, tier):
         q = tier == "quick"
-        for _ in range(330 if q else 6000):
+        for _ in range(330 if q else 5000):
             yield gen_sched(rng, big=not q)
         for _ in range(70 if q else 1200):
             yield gen_pipe(rng)
-        for _ in range(260 if q else 6000):
+        for _ in range(260 if q else 5000):
             yield gen_access(rng)
-        for _ in range(140 if q else 2500):
+        for _ in range(140 if q else 2000):
             yield gen_multi(rng)
+        for _ in range(60 if q else 1000):
+            yield gen_region(rng)
         if not q:
             yield from self.exhaustive()
 
@@ -737,9 +815,36 @@ class C02(Prop):
 
     # -- real code ------------------------------------------------------------------------
     def impl(self, case):
+        if case["kind"] == "region":
+            return self.impl_region(case)
         if case["kind"] == "multi":
             return self.impl_multi(case)
         return self.impl_one(case)
+
+    def impl_region(self, case):
+        """the real verifier of snax_stream.streaming_region (run at the end of a pass that inserts the accelerator op)"""
+        import snaxrun
+        from snaxc.accelerators.snax_xdma import SNAXXDMAAccelerator
+        acc = SNAXXDMAAccelerator() if case["acc"] == "snax_xdma" else snaxrun.ctx().get_acc(case["acc"])
+        streamers = [[int(s.temporal_dim), int(s.spatial_dim)] for s in acc.streamer_config.data.streamers]
+        if case["acc"] not in self._ACC_OPS:
+            txt = run_passes("builtin.module {\n}", f"insert-accfg-op{{accelerator={case['acc']}}}")
+            self._ACC_OPS[case["acc"]] = next(l for l in txt.splitlines() if "accfg.accelerator" in l)
+        src = "builtin.module {\n" + mlir_region(case) + "\n" + self._ACC_OPS[case["acc"]] + "\n}"
+        try:
+            m = parse(src)
+        except Exception as e:
+            return {"region": True, "streamers": streamers, "verified": False, "at": "parse", "cls": type(e).__name__}
+        try:
+            m.verify()
+        except Exception as e:
+            if type(e).__name__ != "VerifyException":
+                raise
+            return {"region": True, "streamers": streamers, "verified": False, "at": "verify", "cls": "VerifyException",
+                    "msg": str(e)[:80]}
+        return {"region": True, "streamers": streamers, "verified": True}
+
+    _ACC_OPS = {}
 
     def impl_one(self, case):
         from snaxc.dialects import dart, snax_stream
@@ -774,10 +879,10 @@ class C02(Prop):
             ops = []
             for pat, opnd in zip(sch.patterns.data, sch.operands):
                 T = AffineTransform.from_affine_map(pat.data)
-                lay, off = layout_data(opnd.type)
+                lay, off, lkind = layout_data(opnd.type)
                 elb = el_bytes_of(opnd.type)
                 ops.append({"A": [[int(v) for v in row] for row in T.A.tolist()], "b": [int(v) for v in T.b.tolist()],
-                            "lay": lay, "off": off, "el": elb, "shape": list(opnd.type.get_shape())})
+                            "lay": lay, "off": off, "lkind": lkind, "el": elb, "shape": list(opnd.type.get_shape())})
             out["sched"] = {"bounds": bounds, "ops": ops}
             self._cache.clear()
             self._cache[json.dumps(case, sort_keys=True)] = (sch, m)
@@ -797,10 +902,18 @@ class C02(Prop):
             strides.append([int(v) for v in T.A[0].tolist()])
         out["access"] = {"bounds": [x.value.data for x in ap.bounds.data], "strides": strides,
                          "els": [EL_BYTES[e] for e in op_els(case)]}
+        if out["sched"]:
+            out["linear"] = linear_flags(sch, out["sched"]["bounds"], strides)
         try:
             out["geo"] = geometry(ap)
         except Exception as e:
+            # the accelerator refuses the op (get_template / get_streamers): the real pass must refuse it the same way
             out["stage"], out["raised"] = "geometry", type(e).__name__
+            try:
+                run_passes(cur, "convert-dart-to-snax-stream")
+                out["pass_raised"] = None
+            except Exception as e2:
+                out["pass_raised"] = type(e2).__name__
             return out
         log = []
         try:
@@ -854,9 +967,10 @@ class C02(Prop):
             ops = []
             for pat, opnd in zip(sch.patterns.data, sch.operands):
                 T = AffineTransform.from_affine_map(pat.data)
-                lay, off = layout_data(opnd.type)
+                lay, off, lkind = layout_data(opnd.type)
                 ops.append({"A": [[int(v) for v in row] for row in T.A.tolist()], "b": [int(v) for v in T.b.tolist()],
-                            "lay": lay, "off": off, "el": el_bytes_of(opnd.type), "shape": list(opnd.type.get_shape())})
+                            "lay": lay, "off": off, "lkind": lkind, "el": el_bytes_of(opnd.type),
+                            "shape": list(opnd.type.get_shape())})
             out["sched"] = {"bounds": [x.value.data for x in sch.bounds.data], "ops": ops}
         try:
             cur = run_passes(cur, "dart-layout-resolution")
@@ -866,7 +980,7 @@ class C02(Prop):
         m2 = parse(cur)
         aps = find(m2, dart.AccessPatternOp)
         assert len(aps) == len(subs)
-        for out, ap, sub in zip(outs, aps, subs):
+        for out, ap, sub, sch in zip(outs, aps, subs, schs):
             strides = []
             for pat in ap.patterns.data:
                 T = AffineTransform.from_affine_map(pat.data)
@@ -874,6 +988,7 @@ class C02(Prop):
                 strides.append([int(v) for v in T.A[0].tolist()])
             out["access"] = {"bounds": [x.value.data for x in ap.bounds.data], "strides": strides,
                              "els": [EL_BYTES[e] for e in op_els(sub)]}
+            out["linear"] = linear_flags(sch, out["sched"]["bounds"], strides)
             try:
                 out["geo"] = geometry(ap)
             except Exception as e:
@@ -915,14 +1030,22 @@ class C02(Prop):
             return None
         if impl_out["stage"] == "geometry":
             return None
-        if impl_out["stage"] == "resolve":
-            return f"layout resolution raised {impl_out['raised']} (the model has no error path there)"
         mos = model_out["ops"]
+        if impl_out["stage"] == "resolve":
+            want = [mo.get("resolveRaised") for mo in mos if mo.get("resolveRaised")]
+            return None if impl_out["raised"] in want else \
+                f"layout resolution raised {impl_out['raised']}; the ops on their own (model): {want or 'all resolve'}"
+        for i, mo in enumerate(mos):
+            if mo.get("resolveRaised"):
+                return f"op {i}: model: layout resolution raises {mo['resolveRaised']}, the module was resolved"
         for i, (io, mo) in enumerate(zip(impl_out["ops"], mos)):
             if "model_error" in mo:
                 return f"op {i}: model error: {mo['model_error']}"
             if io["access"]["strides"] != mo["strides"]:
                 return f"op {i}: access-pattern strides: impl {io['access']['strides']} model {mo['strides']}"
+            d = self.aligned_check(io, mo)
+            if d:
+                return f"op {i}: {d}"
         if impl_out["stage"] in ("convert", "verify"):
             # the module as a whole was refused; the model (every op on its own) must predict a refusal of some op
             for i, (io, mo) in enumerate(zip(impl_out["ops"], mos)):
@@ -950,6 +1073,9 @@ class C02(Prop):
 
     # -- model ------------------------------------------------------------------------------
     def requests(self, case, impl_out):
+        if case["kind"] == "region":
+            return [{"fn": "c02.verify", "args": {"streamers": impl_out["streamers"], "pats": case["pats"]}}] \
+                if "streamers" in impl_out else []
         if case["kind"] == "multi":
             if "invalid_input" in impl_out:
                 return []
@@ -960,8 +1086,13 @@ class C02(Prop):
         return self.requests_one(case, impl_out)
 
     def requests_one(self, case, impl_out):
-        if "invalid_input" in impl_out or impl_out.get("stage") == "geometry":
+        if "invalid_input" in impl_out:
             return []
+        if impl_out.get("stage") == "geometry":
+            if VARIANTS[case["variant"]][0] != "snax_gemmx":
+                return []
+            els = op_els(case)
+            return [{"fn": "c02.streamers", "args": {"acc": "gemmx", "nops": len(els), "outBits": 8 * EL_BYTES[els[-1]]}}]
         ronly = impl_out.get("stage") == "resolve" or impl_out.get("access") is None
         geo = impl_out.get("geo")
         ops = []
@@ -969,8 +1100,16 @@ class C02(Prop):
             s = impl_out["sched"]
             bounds = s["bounds"]
             for i, o in enumerate(s["ops"]):
-                ops.append({"L": layout_aexpr(o["lay"], o["off"], o["el"]), "A": o["A"], "b": o["b"], "strides": None,
-                            "el": o["el"]})
+                if o.get("lkind") == "dyn_tsl":
+                    ops.append({"L": None, "dynTsl": o["lay"], "A": o["A"], "b": o["b"], "strides": [], "el": o["el"]})
+                elif o.get("lkind") == "dyn_strided":
+                    how = "stride" if any(t[0][0] is None for t in o["lay"]) else "offset"
+                    ops.append({"L": None, "dynStrided": how, "A": o["A"], "b": o["b"], "strides": [], "el": o["el"]})
+                elif o.get("lkind") == "tsl":
+                    ops.append({"L": None, "tsl": o["lay"], "A": o["A"], "b": o["b"], "strides": None, "el": o["el"]})
+                else:
+                    ops.append({"L": layout_aexpr(o["lay"], o["off"], o["el"]), "A": o["A"], "b": o["b"],
+                                "strides": None, "el": o["el"]})
         else:
             bounds = impl_out["access"]["bounds"]
             for st, e in zip(impl_out["access"]["strides"], impl_out["access"]["els"]):
@@ -985,6 +1124,10 @@ class C02(Prop):
                                            "streamers": geo["streamers"] if geo else []}}]
 
     def model(self, case, answers, impl_out):
+        if case["kind"] == "region":
+            if not answers or "err" in answers[0]:
+                return {"model_error": answers[0].get("err") if answers else "no answer"}
+            return {"verified": answers[0]["ok"]}
         if case["kind"] == "multi":
             if "invalid_input" in impl_out:
                 return impl_out
@@ -1000,12 +1143,16 @@ class C02(Prop):
         if "invalid_input" in impl_out:
             return impl_out
         if impl_out.get("stage") == "geometry":
+            if answers and "ok" in answers[0] and "raised" in answers[0]["ok"]:
+                return {"geometry_raised": answers[0]["ok"]["raised"]}
             return {"outside": "accelerator rejected the op before the conversion"}
         a = answers[0]
         if "err" in a:
             return {"model_error": a["err"]}
         r = a["ok"]
-        out = {"strides": r["strides"], "conv": r["conv"]}
+        out = {"strides": r["strides"], "conv": r["conv"], "aligned": r.get("aligned"), "dataIndex": r.get("dataIndex")}
+        if "resolveRaised" in r:
+            out["resolveRaised"] = r["resolveRaised"]
         c = r["conv"]
         if c and "final" in c:
             c["nwarn"] = sum(1 for x in c["flags"] if x["warned"])
@@ -1017,22 +1164,59 @@ class C02(Prop):
     def compare(self, case, impl_out, model_out):
         if model_out is None:
             return None
+        if case["kind"] == "region":
+            if "model_error" in model_out:
+                return f"model error: {model_out['model_error']}"
+            return None if impl_out.get("verified") == model_out["verified"] else \
+                f"verifier: impl {impl_out}, model verified={model_out['verified']}"
         if case["kind"] == "multi":
             return self.compare_multi(case, impl_out, model_out)
         return self.compare_one(case, impl_out, model_out)
+
+    @staticmethod
+    def aligned_check(impl_out, model_out):
+        """theorem tsl_linear_of_aligned on the real code: where the model's (decidable) alignment clause holds, the real
+        composed map must be the linear form with the predicted coefficients"""
+        al = model_out.get("aligned") or []
+        bounds = impl_out["sched"]["bounds"]
+        for i, a in enumerate(al):
+            if not a or not a["aligned"]:
+                continue
+            for k, bd in enumerate(bounds):
+                if bd >= 2 and impl_out["access"]["strides"][i][k] != a["strides"][k]:
+                    return (f"operand {i}: aligned (clause of tsl_linear_of_aligned) but stride {k} is "
+                            f"{impl_out['access']['strides'][i][k]}, the theorem's coefficient is {a['strides'][k]}")
+            lin = (impl_out.get("linear") or [None] * len(al))[i]
+            if lin is False:
+                return f"operand {i}: aligned (clause of tsl_linear_of_aligned) but the real composed map is not linear on the box"
+        return None
 
     def compare_one(self, case, impl_out, model_out):
         if model_out is None:
             return None
         if "model_error" in model_out:
             return f"model error: {model_out['model_error']}"
-        if "invalid_input" in impl_out or "outside" in model_out:
+        if "invalid_input" in impl_out:
+            return None
+        if "geometry_raised" in model_out:
+            if impl_out.get("raised") != model_out["geometry_raised"] or impl_out.get("pass_raised") != model_out["geometry_raised"]:
+                return (f"get_streamers: model raises {model_out['geometry_raised']}, accelerator object raised {impl_out.get('raised')}, "
+                        f"the pass raised {impl_out.get('pass_raised')}")
+            return None
+        if "outside" in model_out:
             return None
         if impl_out.get("sched"):
             if impl_out.get("stage") == "resolve":
-                return f"layout resolution raised {impl_out['raised']} (the model has no error path there)"
+                if model_out.get("resolveRaised") == impl_out["raised"]:
+                    return None
+                return f"layout resolution raised {impl_out['raised']}, model: {model_out.get('resolveRaised')}"
+            if "resolveRaised" in model_out:
+                return f"model: layout resolution raises {model_out['resolveRaised']}, impl resolved {impl_out['access']['strides']}"
             if impl_out["access"]["strides"] != model_out["strides"]:
                 return f"access-pattern strides: impl {impl_out['access']['strides']} model {model_out['strides']}"
+            d = self.aligned_check(impl_out, model_out)
+            if d:
+                return d
         conv = model_out["conv"]
         if impl_out.get("stage") == "verify":
             if "raised" in conv:
@@ -1054,6 +1238,12 @@ class C02(Prop):
                 return f"{key}: impl {impl_out[key]} model {conv[key]}"
         if not conv["verified"]:
             return "the model's verifier rejects the streaming region that the real verifier accepted"
+        if model_out.get("dataIndex") != final_index(impl_out["geo"]["variant"], len(impl_out["handed"])):
+            return f"dataIndex of the model {model_out.get('dataIndex')} differs from the table the oracle uses"
+        geo = impl_out["geo"]
+        if [geo["all_dims"][k] for k in model_out["dataIndex"]] != geo["dims"]:
+            return (f"get_streamers: the real accelerator serves the operands with port shapes {geo['dims']}, the model's table "
+                    f"{model_out['dataIndex']} selects {[geo['all_dims'][k] for k in model_out['dataIndex']]}")
         if any(a is not None and b is not None and a != b for a, b in zip(impl_out["hwdig"], model_out["hwdig"])) \
                 or len(impl_out["hwdig"]) != len(model_out["hwdig"]):
             return f"hwStream of the model differs from the harness stream simulator on the handed patterns {impl_out['handed']}"
@@ -1105,6 +1295,9 @@ class C02(Prop):
             return None, None
         lm = sch.operands[i].type.get_affine_map_in_bytes()
         pm = sch.patterns.data[i].data
+        # the `offset` of a #tsl.tsl layout is part of the layout (element units) although TiledStridedLayoutAttr.get_affine_map
+        # leaves it out; the streamed bytes are judged against the layout, so it is added here
+        toff = s["ops"][i]["off"] * el if s["ops"][i].get("lkind") == "tsl" else 0
         steps = []
         linear = True
         st_i = impl_out["access"]["strides"][i]
@@ -1112,7 +1305,7 @@ class C02(Prop):
             st = set()
             for p in itertools.product(*[range(b) for b in bounds[nt:]]):
                 x = list(o) + list(p)
-                a = lm.eval(pm.eval(x, []), [])[0]
+                a = lm.eval(pm.eval(x, []), [])[0] + toff
                 if a != sum(xi * si for xi, si in zip(x, st_i)):
                     linear = False
                 st.update(range(a, a + el))
@@ -1139,6 +1332,8 @@ class C02(Prop):
 
     # -- the property on the real code's output ---------------------------------------------
     def oracle(self, case, impl_out):
+        if case["kind"] == "region":
+            return []
         if case["kind"] == "multi":
             if "invalid_input" in impl_out:
                 return []
@@ -1244,6 +1439,8 @@ class C02(Prop):
     def nontrivial(self, case, impl_out):
         if "invalid_input" in impl_out:
             return False
+        if case["kind"] == "region":
+            return True
         if case["kind"] == "multi":
             return bool(impl_out.get("raised")) or all(o.get("final") for o in impl_out["ops"])
         if impl_out.get("raised"):
@@ -1251,6 +1448,8 @@ class C02(Prop):
         return bool(impl_out.get("final")) and len(impl_out["access"]["bounds"]) > impl_out["geo"]["ntempl"]
 
     def stats_key(self, case, impl_out):
+        if case["kind"] == "region":
+            return f"region:{case['acc'][5:]}:{'ok' if impl_out.get('verified') else 'refused@' + str(impl_out.get('at'))}"
         if case["kind"] == "multi":
             accs = sorted({VARIANTS[x["variant"]][0] for x in case["ops"]})
             k = f"multi:{len(case['ops'])}ops:{'+'.join(a[5:] for a in accs)}"
@@ -1265,6 +1464,10 @@ class C02(Prop):
         return k
 
     def shrink(self, case):
+        if case["kind"] == "region":
+            for i in range(len(case["pats"])):
+                yield dict(case, pats=case["pats"][:i] + case["pats"][i + 1:])
+            return
         if case["kind"] == "multi":
             ops = case["ops"]
             if len(ops) > 2:
